@@ -209,10 +209,19 @@ func c08Run(c *vk.Ctx) {
 					continue
 				}
 				cl.WriteRaw(rf.in)
+				late := time.Since(cl.T0) > c06T/2
 				if rf.fin {
 					cl.Conn.CloseWrite()
 				}
 				obs := watchClose(cl, cl.T0.Add(c06T+c06B))
+				if late {
+					// the harness itself was descheduled for a large part of the handshake timeout before it
+					// had written the reflection: the server may legitimately have timed the handshake out
+					cl.Conn.Close()
+					rig.WaitDone(cl.Local, c06B)
+					c.Inconclusive("reflection written later than half the handshake timeout after dialling (loaded machine)")
+					continue
+				}
 				cl.Conn.Close()
 				rec, done := rig.WaitDone(cl.Local, c06B)
 				c.Eval(fmt.Sprintf("reflect|%s|%s|%s|fin=%v|second=%v", rf.o.key.Cipher, rf.form, rname, rf.fin, rf.second))
